@@ -157,6 +157,8 @@ type world struct {
 	ops0       int // backend operations issued by client 0 (fault part)
 	killed     bool
 	uuids      map[string]int
+	finished   []bool
+	clientsEnd chan int
 }
 
 var uuidRe = regexp.MustCompile(`[0-9a-f]{8}-[0-9a-f]{4}-[0-9a-f]{4}-[0-9a-f]{4}-[0-9a-f]{12}`)
@@ -253,8 +255,17 @@ func (w *world) beforeOp(o *vfsx.Op) *vfsx.Inject {
 	return nil
 }
 
+// finish tells the judge that a client is over (returned, or its process stopped), once.
+func (w *world) finish(c int) {
+	if !w.finished[c] {
+		w.finished[c] = true
+		w.clientsEnd <- c
+	}
+}
+
 func (w *world) stop(o *vfsx.Op, when string) {
 	w.killed = true
+	w.finish(0)
 	w.x.Note("client 0's process stops %s its operation #%d %s", when, w.ops0, w.label(o))
 	w.x.KillClient(0)
 	runtime.Goexit()
@@ -317,11 +328,12 @@ func body(sc scenario) func(x *gosim.Exec) {
 		setupDone := make(chan struct{})
 		close(setupDone)
 		clientsDone := make(chan int, n)
+		w.clientsEnd, w.finished = clientsDone, make([]bool, n)
 		for c := 0; c < n; c++ {
 			c := c
 			cache := newCache(sc.Cache, backend, shared, c)
 			x.Go(fmt.Sprintf("client%d", c), c, func() {
-				defer func() { clientsDone <- c }()
+				defer w.finish(c)
 				<-setupDone
 				for j, o := range sc.Scripts[c] {
 					switch o.Kind {
@@ -536,6 +548,7 @@ func scenarios(t *testing.T) []scenario {
 		add(cache, -1, 1, []op{S(1)}, []op{F})
 		add(cache, 0, 1, []op{S(1), F}, []op{F, S(2)})
 		add(cache, 0, 1, []op{S(1)}, []op{C, F})
+		add(cache, 0, 2, []op{S(1)}, []op{F, S(2)})
 		if ev.Thorough() {
 			add(cache, 0, 2, []op{S(1)}, []op{F})
 			add(cache, 0, 2, []op{S(1)}, []op{S(2)})
@@ -580,7 +593,11 @@ func toScenario(sc scenario) gosim.Scenario {
 		Body: body(sc),
 		Outcome: func(r *gosim.Result) string {
 			if w, ok := r.User.(*world); ok {
-				return r.Verdict + ":" + strings.Join(w.outcome, ",")
+				o := r.Verdict + ":" + strings.Join(w.outcome, ",")
+				if w.lockBroken != "" {
+					o += ":lock-of-another-client-removed-in-" + w.lockBroken
+				}
+				return o
 			}
 			return r.Verdict
 		},
@@ -683,3 +700,20 @@ func replay(t *testing.T, path string) {
 }
 
 var _ = context.Background
+
+// TestDebugOps prints client 0's backend operations of a fault-free Store (development aid).
+func TestDebugOps(t *testing.T) {
+	if os.Getenv("VERIF_DEBUG") == "" {
+		t.Skip()
+	}
+	sc := scenario{Name: "measure", Cache: os.Getenv("VERIF_DEBUG"), Initial: 0, Scripts: [][]op{{{"Store", 1}}}, Fault: "measure"}
+	g := toScenario(sc)
+	r := gosim.RunOnce(t, &g.Opts, g.Body, nil, nil)
+	n := 0
+	for _, l := range r.Trace {
+		if strings.Contains(l, ": c0 ") {
+			n++
+			fmt.Printf("#%03d %s\n", n, l)
+		}
+	}
+}
